@@ -10,7 +10,7 @@ from checks import lib
 from checks import C03 as base
 
 PROPERTY = "C02"
-LEAN_MODULES = ["KafVerif.Props.C02"]
+LEAN_MODULES = ["KafVerif.Props.C02", "KafVerif.Props.C02Loss"]
 OBLIGATIONS = [
     "KafVerif.C02.offsets_chain",
     "KafVerif.C02.chain_strict",
@@ -22,10 +22,19 @@ OBLIGATIONS = [
     "KafVerif.C02.stored_is_one_frame",
     "KafVerif.C02.appendOld_violates",
     "KafVerif.C02.appendOld_concat_violates",
+    # restart with object loss (lean/KafVerif/Props/C02Loss.lean)
+    "KafVerif.C02.restore_next_is_retained_end",
+    "KafVerif.C02.first_ack_after_restore",
+    "KafVerif.C02.offsets_chain_after_loss",
+    "KafVerif.C02.index_loss_restart_is_contiguous",
+    "KafVerif.C02.max_footer_restore_leaves_gap",
 ]
 ASSUMPTIONS = [
     "assigned offsets are unbounded integers in the model (int64 overflow after 2^63 records is not covered); header fields keep their Go widths",
-    "uploads succeed (upload failures and a crash while an upload is in flight are C01/C05/C06's subject); a restart loses the unflushed buffer, whose records were not yet durable",
+    "uploads succeed (upload failures and a crash while an upload is in flight are C01/C05/C06's subject); a restart loses the unflushed buffer, whose records were not yet durable; "
+    "the S3 state a half-uploaded flush leaves behind (segment object without a usable index object = orphan) is generated as object loss before a restart "
+    "(delindex/badindex/delseg of committed segments + restart at a stale store offset); the theorems cover ONE loss+restart round after any fault-free history, "
+    "further rounds are covered by the correspondence run and the monitor",
     "sync.Mutex: AppendBatch's critical section is one atomic step",
     "S3 is the in-memory client; the metadata store is the in-memory store (UpdateOffsets/NextOffset)",
 ]
@@ -34,7 +43,9 @@ TECHNIQUE = ("Lean 4 proof (invariant by induction over all operation sequences 
 LEVEL_TEXT = ("Lean 4 theorems for every start offset, configuration and operation sequence with arbitrary record-set bytes: the stored log "
               "(segments, in-flight flush, buffer) is a contiguous chain of batches with base <= last, next base = last + 1, ending at nextOffset; "
               "strictly increasing and gap-free; the produce response base is the stored base (struct and bytes 0:8); a declared-length record set is "
-              "stored as exactly one frame. The pre-fix code is shown to violate it. Model tied to the current source by differential runs.")
+              "stored as exactly one frame. Across a restart that finds orphaned / lost objects in S3 (offsets_chain_after_loss): the offsets continue at "
+              "the end of the last segment that survived the restore (or the store offset) and everything stored afterwards is one chain from there. "
+              "The pre-fix code is shown to violate it. Model tied to the current source by differential runs.")
 LEVEL_NOTE = ("Trusted: Lean kernel; the hand-written model of log.go/recordbatch.go/segment.go offset arithmetic; the Go harnesses and generators. "
               "Not covered: int64 overflow, upload failures (C01/C05), crash mid-upload (C06).")
 BUILDS = {"st": ("root", "./cmd/verif_c03", ["C03"]), "br": ("root", "./cmd/broker", ["C02", "C03"])}
@@ -45,7 +56,14 @@ def run(ck):
     bins = ck.build_all()
     if bins is None:
         return
-    ck.cov["rule"] = ("histories of append (valid batches plus header lies: negative/huge lastOffsetDelta, wrong/zero/negative batch length, "
+    ck.partial = ("offsets_chain_after_loss covers ONE restart with object loss (orphans anywhere) after any fault-free history and every later state up to "
+                  "the next restart; restore_next_is_retained_end / first_ack_after_restore hold for every S3 listing (any number of rounds) but say nothing "
+                  "about the order of the listing after a second round: a second loss+restart round (an orphan of the first round still listed, possibly "
+                  "overlapped by a newer segment) is covered by the orphans/holes streams (correspondence + monitor) only")
+    ck.cov["rule"] = ("orphans/holes streams: committed segments, index object of the LAST one or two (orphan above the last valid segment) or of a middle "
+                      "segment deleted/corrupted, restart at a stale store offset, appends + flush (overwrites the orphan object) + plain restart; the monitor "
+                      "requires every acknowledged base = end of the log that survived the restore (max store offset); "
+                      "histories of append (valid batches plus header lies: negative/huge lastOffsetDelta, wrong/zero/negative batch length, "
                       "2-4 concatenated batches, trailing bytes, short input, record-count lies) / flush / gated flush / restart / read over up to "
                       "three partition logs, generated from VERIF_SEED; non-trivial = a segment was committed and a read returned data beyond the "
                       "first offset of a segment; distinct = distinct op files; broker stream (handleProduce/handleFetch/brestart, acks in {-1,1,0}, flush-on-ack on/off): "
@@ -57,6 +75,10 @@ def run(ck):
         # a stream with mostly malformed record sets
         ("lies", "st", base.storage_ops(ck, 6 if ck.quick() else 60, 60, gen_kw={"lie_rate": (1, 2)})),
         ("xpartition", "st", base.xpart_ops(ck, 5 if ck.quick() else 50)),
+        # object loss + restart: orphan segments (segment object without a usable index) above the last valid segment and in the
+        # middle; the acknowledged bases must continue at the end of the last segment that SURVIVED the restore
+        ("orphans", "st", base.orphan_ops(ck, 6 if ck.quick() else 60)),
+        ("holes", "st", base.holes_ops(ck, 3 if ck.quick() else 40)),
         ("broker", "br", base.broker_ops(ck, 10 if ck.quick() else 100, 60)),
     ])
     if not ok and not ck.violations:
